@@ -1,0 +1,20 @@
+//go:build verif
+
+// Constructors used only by the deterministic-simulation harness (build tag verif).
+package proposal
+
+import (
+	"github.com/onosproject/onos-config/pkg/pluginregistry"
+	"github.com/onosproject/onos-config/pkg/southbound/gnmi"
+	"github.com/onosproject/onos-config/pkg/store/topo"
+	"github.com/onosproject/onos-config/pkg/store/v2/configuration"
+	proposalstore "github.com/onosproject/onos-config/pkg/store/v2/proposal"
+)
+
+func NewReconcilerForVerif(t topo.Store, c gnmi.ConnManager, p proposalstore.Store, cfg configuration.Store, r pluginregistry.PluginRegistry) *Reconciler {
+	return &Reconciler{conns: c, topo: t, proposals: p, configurations: cfg, pluginRegistry: r}
+}
+func NewWatcherForVerif(p proposalstore.Store) *Watcher { return &Watcher{proposals: p} }
+func NewConfigurationWatcherForVerif(c configuration.Store) *ConfigurationWatcher {
+	return &ConfigurationWatcher{configurations: c}
+}
